@@ -580,6 +580,7 @@ class Interp:
         # inside a loop over the index symbol: element-wise write schema
         for lc in reversed(self.loop_ctx):
             if lc.get("isym") is not None and idx.e.has(lc["isym"]):
+                self.refuse_conditional_loop_effect("indexed write", e)
                 lc["writes"].append((base_ref, idx.e, v, e))
                 return
         base_ref.set(b.set_index(idx.e, v, self.bounds))
@@ -913,6 +914,13 @@ class Interp:
         if len(self.assumed) > (self.loop_base[-1] if self.loop_base else 0):
             raise Unanalysable("continue under a symbolic condition", FX.short(e.get("sp")))
         raise ContinueSignal()
+
+    def refuse_conditional_loop_effect(self, what, e):
+        """pushes / element writes of a summarised loop are collected per iteration and applied for *every* iteration: one
+        that happens only under a condition evaluated inside the body (`if c { continue; } v.push(..)`) would be applied
+        unconditionally (seeded change C01i slipped through exactly so once conditional `continue` was modelled)"""
+        if self.loop_base and len(self.assumed) > self.loop_base[-1]:
+            raise Unanalysable(f"{what} under a condition evaluated inside a summarised loop body (the number / positions of the elements would depend on data)", FX.short((e or {}).get("sp")))
 
     def run_body(self, body, env):
         """evaluate a loop body for one (generic) iteration"""
